@@ -396,7 +396,7 @@ func corpus() []Case {
 
 func gen(seed uint64, tier string) []interface{} {
 	r := lib.NewRng(seed)
-	n := 330
+	n := 280
 	if tier == "thorough" {
 		n = 5000
 	}
